@@ -6,7 +6,7 @@
    property that lets several hosts share one Model-V network (Qasm/TeardownNet.v). *)
 From Coq Require Import List Bool Arith Lia.
 From SQ Require Import Base.ListUtil Stab.Tableau Net.Model Net.Refusal Net.Handles Net.Inv Net.InvNew Net.InvStep
-  Net.Population Net.PerNode Qasm.Exec Qasm.ExecProps Qasm.Teardown.
+  Net.Population Net.PerNode Qasm.Exec Qasm.ExecProps Qasm.Teardown Qasm.PerNodeNum.
 Import ListNotations.
 
 Local Arguments step : simpl never.
@@ -71,6 +71,20 @@ Proof.
 Qed.
 Lemma hn_lt s i x : hid_inv s -> In x (hn (nth_node s i)) -> x < next_hid s.
 Proof. intros [_ B] Hin. rewrite Forall_forall in B. apply B. eapply hn_in_hids; eauto. Qed.
+
+(* what the operations of host i may do to the (number, handle) lists: other nodes untouched; at node i the lookup by
+   number of every unclaimed half still returns that half *)
+Definition vstable (i : nat) (ex : list nat) (n n' : net) : Prop :=
+  (forall j, j <> i -> vn (nth_node n' j) = vn (nth_node n j)) /\
+  (forall num hd, In hd ex -> hid_of_num (nth_node n i) num = Some hd -> hid_of_num (nth_node n' i) num = Some hd).
+Lemma vstable_refl i ex n : vstable i ex n n.
+Proof. split; auto. Qed.
+Lemma vstable_trans i ex n1 n2 n3 : vstable i ex n1 n2 -> vstable i ex n2 n3 -> vstable i ex n1 n3.
+Proof. intros [A1 B1] [A2 B2]. split; [intros j Nj; rewrite A2, A1; auto|auto]. Qed.
+Lemma vstable_same i ex n n' : (forall j, vn (nth_node n' j) = vn (nth_node n j)) -> vstable i ex n n'.
+Proof. intro H. split; [auto|]. intros num hd _. unfold hid_of_num. rewrite H. auto. Qed.
+Lemma vstable_hn i ex n n' : vstable i ex n n' -> forall j, j <> i -> hn (nth_node n' j) = hn (nth_node n j).
+Proof. intros [A _] j Nj. rewrite !hn_vn, A; auto. Qed.
 
 (* ---- the generalised invariant --------------------------------------------------------------------------------------------------- *)
 Record tinvx (i : nat) (ex : list nat) (s : qst) : Prop := mkTx {
@@ -154,14 +168,15 @@ Qed.
 
 (* ---- native calls that neither create nor destroy ----------------------------------------------------------------------------- *)
 Lemma xquiet i ex s o : quiet_op o = true -> tinvx i ex s ->
-  tinvx i ex (fst (fst (native s o))) /\ forall j, hn (nth_node (q_net (fst (fst (native s o)))) j) = hn (nth_node (q_net s) j).
+  tinvx i ex (fst (fst (native s o))) /\ forall j, vn (nth_node (q_net (fst (fst (native s o)))) j) = vn (nth_node (q_net s) j).
 Proof.
   intros Q [H I K N O E D M].
   pose proof (hinv_native s o H) as H'.
   unfold native in *. destruct (step (q_net s) o) as [n' r] eqn:E0. simpl in *.
-  assert (A : forall j, hn (nth_node n' j) = hn (nth_node (q_net s) j)).
-  { intro j. pose proof (step_quiet (q_net s) o j Q) as [A _]. rewrite E0 in A. exact A. }
-  split; [|exact A]. constructor; simpl; auto.
+  assert (AV : forall j, vn (nth_node n' j) = vn (nth_node (q_net s) j)).
+  { intro j. pose proof (step_quiet_vn (q_net s) o j Q) as A. rewrite E0 in A. exact A. }
+  assert (A : forall j, hn (nth_node n' j) = hn (nth_node (q_net s) j)) by (intro j; rewrite !hn_vn, AV; reflexivity).
+  split; [|exact AV]. constructor; simpl; auto.
   - pose proof (step_ginv (q_net s) o (conj (inv_net s H) I)) as [_ G]. rewrite E0 in G. exact G.
   - intro x. rewrite A. apply O.
 Qed.
@@ -174,7 +189,7 @@ Lemma xclear_one i ex s p c hd :
     h_units (q_host s1) = h_units (q_host s) /\ h_active (q_host s1) = h_active (q_host s) /\
     h_used (q_host s1) = remove_nat p (h_used (q_host s)) /\
     h_qlist (q_host s1) = premove (PP p) (h_qlist (q_host s)) /\
-    (forall j, j <> i -> hn (nth_node (q_net s1) j) = hn (nth_node (q_net s) j)).
+    vstable i ex (q_net s) (q_net s1).
 Proof.
   intros T Hu Hp NM s0. destruct T as [H I K N O E D M].
   assert (H0 : hinv s0) by (apply hinv_unuse; auto).
@@ -189,6 +204,10 @@ Proof.
                          if Nat.eqb j i then filter (fun x => negb (Nat.eqb x hd)) (hn (nth_node (q_net s) i))
                          else hn (nth_node (q_net s) j)).
   { intro j. apply (step_meas_hn (q_net s) hd c v i vq j Ok1 F). }
+  assert (AV : forall j, vn (nth_node (fst (step (q_net s) (OMeas hd false c))) j) =
+                         if Nat.eqb j i then filter (fun x => negb (Nat.eqb (snd x) hd)) (vn (nth_node (q_net s) i))
+                         else vn (nth_node (q_net s) j)).
+  { intro j. apply (step_meas_vn (q_net s) hd c v i vq j Ok1 F). }
   pose proof (step_ginv (q_net s) (OMeas hd false c) (conj (inv_net s H) I)) as [_ G].
   destruct (step (q_net s) (OMeas hd false c)) as [n' r] eqn:E0. cbn [fst snd] in *. subst r.
   pose proof (AJ i) as A. rewrite Nat.eqb_refl in A.
@@ -209,7 +228,10 @@ Proof.
     + intros p0 hd0 Hp0. apply plookup_premove_some in Hp0 as [Hp0 _]. eauto.
     + intros app um a p0 E1 E2. rewrite plookup_premove_neq; [eauto|].
       intro X. inversion X; subst. eapply NM; eauto.
-  - intros j Nj. rewrite AJ. destruct (Nat.eqb_spec j i); [contradiction|reflexivity].
+  - split.
+    + intros j Nj. rewrite AV. destruct (Nat.eqb_spec j i); [contradiction|reflexivity].
+    + intros num hd0 Hex L. unfold hid_of_num in *. rewrite AV, Nat.eqb_refl. apply lookup_filter; auto.
+      intro X. subst hd0. eapply D; eauto.
 Qed.
 
 Lemma xclear_all_ok i ex um : forall s coins,
@@ -220,10 +242,10 @@ Lemma xclear_all_ok i ex um : forall s coins,
     h_units (q_host s1) = h_units (q_host s) /\ h_active (q_host s1) = h_active (q_host s) /\
     (forall k, In k (map fst (h_qlist (q_host s1))) ->
                In k (map fst (h_qlist (q_host s))) /\ forall a p, nth_error um a = Some (Some p) -> k <> PP p) /\
-    (forall j, j <> i -> hn (nth_node (q_net s1) j) = hn (nth_node (q_net s) j)).
+    vstable i ex (q_net s) (q_net s1).
 Proof.
   induction um as [|[p|] t IH]; intros s coins T F D; simpl.
-  - eexists; eexists. split; [reflexivity|]. split; [auto|]. split; [auto|]. split; [auto|]. split; [|auto].
+  - eexists; eexists. split; [reflexivity|]. split; [auto|]. split; [auto|]. split; [auto|]. split; [|apply vstable_refl].
     intros k Hk. split; [auto|]. intros a p E. destruct a; discriminate.
   - destruct (F 0 p eq_refl) as (Hu & Hq & NM).
     assert (M : mem_nat p (h_used (q_host s)) = true) by (apply mem_nat_in; auto). rewrite M. simpl.
@@ -241,7 +263,7 @@ Proof.
     + rewrite E2. eexists; eexists. split; [reflexivity|]. split; auto. split; [congruence|]. split; [congruence|]. split.
       * intros k Hk. apply Q2 in Hk as [Hk1 Hk2]. rewrite Q1 in Hk1. apply premove_keys in Hk1 as [Hk1 Nk]. split; auto.
         intros [|a] p0 Ea; [inversion Ea; subst; auto | eauto].
-      * intros j Nj. rewrite O2, O1; auto.
+      * eapply vstable_trans; eauto.
   - destruct (IH s coins T) as (s2 & tr2 & E2 & T2 & U2 & A2 & Q2 & O2).
     + intros a p0 Ea. apply (F (S a) p0 Ea).
     + intros a a' p0 Ea Ea'. specialize (D (S a) (S a') p0 Ea Ea'). lia.
@@ -357,15 +379,14 @@ Proof.
 Qed.
 
 (* ---- every instruction of host i keeps the invariant and leaves every other node's handle list alone ---------------- *)
-Theorem xexec i ex s q : tinvx i ex s ->
-  tinvx i ex (fst (fst (exec i s q))) /\
-  forall j, j <> i -> hn (nth_node (q_net (fst (fst (exec i s q)))) j) = hn (nth_node (q_net s) j).
+Theorem xexec_v i ex s q : tinvx i ex s ->
+  tinvx i ex (fst (fst (exec i s q))) /\ vstable i ex (q_net s) (q_net (fst (fst (exec i s q)))).
 Proof.
   intro T.
-  assert (SAME : tinvx i ex s /\ forall j, j <> i -> hn (nth_node (q_net s) j) = hn (nth_node (q_net s) j)) by (split; auto).
+  assert (SAME : tinvx i ex s /\ vstable i ex (q_net s) (q_net s)) by (split; [auto|apply vstable_refl]).
   destruct q; simpl.
   - (* init app *)
-    split; [|auto]. pose proof (addr_inv i s (QInitApp app maxq) (x_h i ex s T)) as HH. simpl in HH.
+    split; [|apply vstable_refl]. pose proof (addr_inv i s (QInitApp app maxq) (x_h i ex s T)) as HH. simpl in HH.
     destruct T as [H I K N O E D M]. constructor; simpl; auto.
     intros app0 um a p H1 H2. destruct (Nat.eq_dec app app0) as [EQ|Ne]; [subst app0|].
     + rewrite alookup_aset_eq in H1. inversion H1; subst. exfalso. eapply nth_error_repeat_none; eauto.
@@ -390,7 +411,7 @@ Proof.
            destruct (inv_uinj s H app um a app0 um0 a0 p EU Ea E1 E2). contradiction.
       * intros a a' p Ea Ea'. destruct (inv_uinj s (x_h i ex s T) app um a app um a' p EU Ea EU Ea'); auto.
       * rewrite E. simpl. split; [exact T2|exact O2].
-    + split; [|auto]. destruct T as [H I K N O E D M]. constructor; simpl; auto.
+    + split; [|apply vstable_refl]. destruct T as [H I K N O E D M]. constructor; simpl; auto.
       destruct H as [Hn U J L Q]. constructor; simpl; auto.
   - (* qalloc *)
     destruct (alookup app (h_units (q_host s))) as [um|] eqn:EU; [|exact SAME].
@@ -402,6 +423,7 @@ Proof.
     destruct o; simpl;
       try (rewrite NOK by (intros; discriminate); destruct s as [sn sh]; exact SAME).
     pose proof (step_new_hn (q_net s) i v) as Y. rewrite ES in Y. simpl in Y.
+    pose proof (step_new_vn (q_net s) i v) as YV. rewrite ES in YV. simpl in YV.
     pose proof (step_ginv (q_net s) (ONew i) (conj (inv_net s (x_h i ex s T)) (x_inv i ex s T))) as G. rewrite ES in G. simpl in G.
     pose proof (new_ok_next _ _ _ _ ES) as NX.
     split.
@@ -413,31 +435,35 @@ Proof.
       * intro X. assert (next_hid (q_net s) < next_hid (q_net s)); [|lia].
         apply (hn_lt (q_net s) i); [apply (inv_net s (x_h i ex s T))|]. apply (x_own i ex s T). auto.
       * apply (x_exnodup i ex s T).
-    + intros j Nj. destruct (Y j eq_refl) as (A & _ & _). rewrite A. destruct (Nat.eqb_spec j i); [contradiction|reflexivity].
+    + split.
+      * intros j Nj. destruct (YV j eq_refl) as [A _]. rewrite A. destruct (Nat.eqb_spec j i); [contradiction|reflexivity].
+      * intros num hd0 _ L. unfold hid_of_num in *. destruct (YV i eq_refl) as [A _]. rewrite A, Nat.eqb_refl.
+        apply lookup_app_l. exact L.
   - (* init *)
     destruct (handle_of (q_host s) app a) as [hd|]; [|exact SAME].
     pose proof (xquiet i ex s (OMeas hd true coin) eq_refl T) as [T1 O1].
     destruct (native s (OMeas hd true coin)) as [[s1 r] tr]. simpl in T1, O1.
-    destruct r as [v| | |k]; simpl; auto.
-    destruct v as [|[|v]]; simpl; auto.
+    destruct r as [v| | |k]; simpl; try (split; [exact T1|apply vstable_same; exact O1]).
+    destruct v as [|[|v]]; simpl; try (split; [exact T1|apply vstable_same; exact O1]).
     pose proof (xquiet i ex s1 (OGate1 hd NX) eq_refl T1) as [T2 O2].
-    destruct (native s1 (OGate1 hd NX)) as [[s2 r2] tr2]. simpl in *. split; [exact T2|]. intros j _. rewrite O2, O1. reflexivity.
+    destruct (native s1 (OGate1 hd NX)) as [[s2 r2] tr2]. simpl in *. split; [exact T2|].
+    apply vstable_same. intros j. rewrite O2, O1. reflexivity.
   - destruct (handle_of (q_host s) app a) as [hd|]; [|exact SAME].
     pose proof (xquiet i ex s (OGate1 hd (native1 g)) eq_refl T) as [T1 O1].
-    destruct (native s (OGate1 hd (native1 g))) as [[s1 r] tr]. simpl in *. auto.
+    destruct (native s (OGate1 hd (native1 g))) as [[s1 r] tr]. simpl in *. split; [exact T1|apply vstable_same; exact O1].
   - destruct (handle_of (q_host s) app a) as [hd|]; [|exact SAME].
     pose proof (xquiet i ex s (OGate1 hd NRot) eq_refl T) as [T1 O1].
-    destruct (native s (OGate1 hd NRot)) as [[s1 r] tr]. simpl in *. auto.
+    destruct (native s (OGate1 hd NRot)) as [[s1 r] tr]. simpl in *. split; [exact T1|apply vstable_same; exact O1].
   - destruct (position (q_host s) app a1) as [p1|]; [|exact SAME].
     destruct (position (q_host s) app a2) as [p2|]; [|exact SAME].
     destruct (virt_of (q_host s) (PP p1)) as [h1|]; [|exact SAME].
     destruct (virt_of (q_host s) (PP p2)) as [h2|]; [|exact SAME].
     destruct (Nat.eqb h1 h2); [exact SAME|].
     pose proof (xquiet i ex s (OGate2 h1 h2 (native2 g)) eq_refl T) as [T1 O1].
-    destruct (native s (OGate2 h1 h2 (native2 g))) as [[s1 r] tr]. simpl in *. auto.
+    destruct (native s (OGate2 h1 h2 (native2 g))) as [[s1 r] tr]. simpl in *. split; [exact T1|apply vstable_same; exact O1].
   - destruct (handle_of (q_host s) app a) as [hd|]; [|exact SAME].
     pose proof (xquiet i ex s (OMeas hd true coin) eq_refl T) as [T1 O1].
-    destruct (native s (OMeas hd true coin)) as [[s1 r] tr]. simpl in *. auto.
+    destruct (native s (OMeas hd true coin)) as [[s1 r] tr]. simpl in *. split; [exact T1|apply vstable_same; exact O1].
   - (* qfree *)
     destruct (alookup app (h_units (q_host s))) as [um|] eqn:EU; [|exact SAME].
     destruct (nth_error um a) as [[p|]|] eqn:EA; try exact SAME.
@@ -457,6 +483,11 @@ Proof.
       destruct (inv_uinj s (x_h i ex s T) app um a app0 y a0 p EU EA Y1 Y2) as [E1 E2]. subst. apply Y3; auto.
     + cbv zeta in E1. simpl in E1. rewrite E1. split; [exact T2|exact O2].
 Qed.
+
+Theorem xexec i ex s q : tinvx i ex s ->
+  tinvx i ex (fst (fst (exec i s q))) /\
+  forall j, j <> i -> hn (nth_node (q_net (fst (fst (exec i s q)))) j) = hn (nth_node (q_net s) j).
+Proof. intro T. destruct (xexec_v i ex s q T) as [A B]. split; [exact A|]. apply (vstable_hn i ex _ _ B). Qed.
 
 (* ---- nothing but application qubits is in qubitList (Teardown.leakfree_exec, with the generalised invariant) ------- *)
 Theorem xleakfree_exec i ex s q : tinvx i ex s -> leakfree s -> fresh_init s q -> leakfree (fst (fst (exec i s q))).
